@@ -2,6 +2,7 @@ package main
 
 import (
 	"fmt"
+	"iter"
 	"runtime/debug"
 	"sort"
 	"strings"
@@ -34,20 +35,21 @@ var opCtx = [...]string{"diff", "intersect", "merge"}
 
 // subject = one golib object + its own mathematical-set model.
 type subject struct {
-	c      *ev.Case
-	name   string
-	k      kind
-	sb     *setz.Bits
-	bm     *setz.Bitmap
-	db     *dsz.Bits
-	m      map[uint]struct{}
-	sorted []uint
-	dirty  bool
-	hi     uint // highest value ever added / grown to / merged in (sweep bound)
-	muts   int  // mutating operations applied
-	fresh  bool // mutated (or used as operand) since its last full verification
-	enums  int
-	q      *quietState
+	c       *ev.Case
+	name    string
+	k       kind
+	sb      *setz.Bits
+	bm      *setz.Bitmap
+	db      *dsz.Bits
+	m       map[uint]struct{}
+	sorted  []uint
+	dirty   bool
+	hi      uint // highest value ever added / grown to / merged in (sweep bound)
+	muts    int  // mutating operations applied
+	fresh   bool // mutated (or used as operand) since its last full verification
+	enums   int
+	q       *quietState
+	keptAll iter.Seq[uint]
 }
 
 // quietState: while left > 0 the harness makes no observing call (Len, Contains,
@@ -682,6 +684,29 @@ func (s *subject) enumerate(ctx string) bool {
 		c.Logf("%s.All() -> %s", s.name, fmtSet(got))
 		s.fail("all-sequence", ctx, "All(): %s", d)
 		return false
+	}
+	// an All() sequence obtained at an earlier enumeration, run now, twice: it must
+	// enumerate the members of now, both times
+	if s.keptAll != nil {
+		for pass := 0; pass < 2; pass++ {
+			got = got[:0]
+			if !s.guard("All", func() {
+				s.keptAll(func(x uint) bool {
+					got = append(got, x)
+					return len(got) <= limit
+				})
+			}) {
+				return false
+			}
+			if d := firstDiff(got, want); d != "" {
+				s.fail("all-kept-sequence", ctx, "an All() sequence obtained earlier and run now (pass %d): %s", pass+1, d)
+				return false
+			}
+		}
+		c.Add("kept_all_sequences_rerun", 1)
+	}
+	if s.keptAll == nil || c.Rng.Chance(1, 3) {
+		s.guard("All", func() { s.keptAll = s.sb.All() })
 	}
 	return true
 }
